@@ -6,6 +6,7 @@ import Vivid.Engine.View
 import Vivid.Engine.Codec
 import Vivid.Engine.ActorSys
 import Vivid.Engine.SysFSM
+import Vivid.Engine.Future
 
 open Vivid.Engine
 
@@ -16,7 +17,8 @@ def engines : List (String × Engine) := [
   ("view", ViewEngine.engine),
   ("codec", CodecEngine.engine),
   ("actorsys", ActorSysEngine.engine),
-  ("sysfsm", SysFSMEngine.engine)
+  ("sysfsm", SysFSMEngine.engine),
+  ("future", FutureEngine.engine)
 ]
 
 partial def loop (h : IO.FS.Stream) (out : IO.FS.Stream) (e : Engine) (s : e.σ) : IO Unit := do
